@@ -40,7 +40,7 @@ def random_history(rnd):
             ops.append("r:%d" % n)
         elif r < 0.8:
             l = rnd.choice([0, 1, 5, 32])
-            ops.append("s:%s" % (bytes(rnd.randrange(1, 256) for _ in range(l)).hex() or "-"))
+            ops.append("s:%s" % (bytes(rnd.randrange(0 if rnd.random() < 0.2 else 1, 256) for _ in range(l)).hex() or "-"))
         elif r < 0.88:
             ops.append("c:%d" % rnd.randrange(256))
         else:
